@@ -131,6 +131,19 @@ def _case(vals, acc):
             res[ri] = ('raises', type(e).__name__)
     want = want_here
     payload = {'text': text, 'unit_system': system}
+    # the call that leaves return_int out is the exact-quantity call (not the ceiling)
+    try:
+        dflt = ('value', strutils.string_to_bytes(text, **kw))
+    except ValueError:
+        dflt = ('ValueError',)
+    except Exception as e:
+        dflt = ('raises', type(e).__name__)
+    if dflt[0] != res[False][0] or (dflt[0] == 'value' and (
+            dflt[1] != res[False][1] or type(dflt[1]) is not type(res[False][1]))):
+        acc.fail('return_int-left-out-differs-from-False',
+                 {'text': text, 'unit_system': system, 'got': repr(dflt), 'with_False': repr(res[False])},
+                 dict(payload, return_int=False))
+        return
     for ri in (False, True):
         got = res[ri]
         if want[0] == 'ValueError':
@@ -341,9 +354,12 @@ def run(ctx):
         warnings.simplefilter('ignore')
         for word in ('None', 'unavailable'):
             rep.count('evaluations')
-            info = QemuImgInfo('image: x\ndisk size: %s\n' % word)
-            if info.disk_size != 0:
-                rep.fail('qemu:unavailable', {'word': word, 'got': repr(info.disk_size)},
+            try:
+                got = QemuImgInfo('image: x\ndisk size: %s\n' % word).disk_size
+            except Exception as e:
+                got = ('raises', type(e).__name__)
+            if got != 0:
+                rep.fail('qemu:unavailable', {'word': word, 'got': repr(got)},
                          {'qemu': 'image: x\ndisk size: %s\n' % word, 'attr': 'disk_size', 'want': 0})
     rep.sample({'text': '1.5KiB', 'unit_system': 'mixed', 'exact': '1536'})
     rep.sample({'text': '-.5Qib', 'unit_system': 'IEC', 'return_int': True})
